@@ -30,9 +30,51 @@ def check(src, rep):
     rep.guard(rule_modes, src, rep, km, counts)
     rep.guard(rule_key_name_total, src, rep, km, counts)
     rep.guard(rule_config, src, rep, km, counts)
+    rep.guard(rule_inputs_side_by_side, src, rep, km, counts)
     rep.extracted["counts"] = counts
     rep.floor("mode-independence cases", counts.get("mode_cases", 0), 3000)
     rep.floor("config key names", counts.get("config_names", 0), 130)
+
+
+def rule_inputs_side_by_side(src, rep, km, counts):
+    """N6: the naming mode belongs to the Input object: several Inputs with different modes in one process, fed the same bytes
+    one after the other (in every order), each name their keys in their own mode."""
+    import itertools
+    from .. import osmodel
+    from ..consteval import Record
+    from ..objinterp import NativeFunc
+    it = km.it
+    f = src.func("input", "Input.__init__")
+    want = {"CURTSIES": ["<UP>", "a", "<F1>"], "CURSES": ["KEY_UP", "a", "KEY_F(1)"], "BYTES": [b"\x1b[A", b"a", b"\x1bOP"]}
+    data = b"\x1b[Aa\x1bOP"
+    n = 0
+    for order in itertools.permutations(["CURTSIES", "CURSES", "BYTES"]):
+        it.folder.overrides.clear()
+        it.folder.__dict__.pop("_class_attrs", None)
+        osm = osmodel.OS()
+        osmodel.install(it, osm)
+        got = {}
+        for mode in order:
+            inp = it.new("input", "Input", in_stream=Record(fileno=NativeFunc(lambda a, k: 0), name="<stdin>"), keynames=km.modes[mode],
+                         paste_threshold=None)
+            mark = it.checkpoint()
+            r = it.callm(inp, "unget_bytes", data)
+            keys = []
+            for _ in range(3):
+                r = it.callm(inp, "send", 0)
+                if r[0] == "opaque":
+                    raise AnalysisError("Input.send outside the evaluated subset: %s" % r[1])
+                keys.append(r[1] if r[0] == "ok" else r)
+            if it.dirty(mark):
+                raise AnalysisError("Input.send: %s" % it.dirty(mark))
+            got[mode] = keys
+            n += 1
+            rep.case(True)
+        bad = {m: got[m] for m in order if got[m] != want[m]}
+        rep.ob("N6-naming-mode-belongs-to-the-input-object", f.where(), "input:Input", "Inputs created in the order %s, each fed ESC[A a ESC O P" % (order,),
+               not bad, "the Input(s) %s returned %s; expected %s" % (sorted(bad), bad, {m: want[m] for m in bad}), witness={"order": list(order)})
+    it.folder.overrides.clear()
+    counts["side_by_side"] = n
 
 
 def rule_n1(src, rep, km, counts):
@@ -127,7 +169,10 @@ def rule_config(src, rep, km, counts):
     it = km.it
     specials = it.folder.const("configfile_keynames", "SPECIALS", dict)
     producible = set(km.curtsies.values())
+    mark = it.checkpoint()
     obj = it.new("configfile_keynames", "KeyMap")
+    if it.dirty(mark):
+        raise AnalysisError("constructing KeyMap: %s" % it.dirty(mark))
     domain = []
     domain += ["C-%s" % c for c in string.ascii_lowercase]
     domain += ["M-%s" % chr(c) for c in range(0x20, 0x7f)]
